@@ -68,6 +68,32 @@ def oracle_rl(scn, info) -> list[str]:
     return errs
 
 
+def slow_agent_two_sessions(chk: Check, rng):
+    """an agent whose last decision of a session is slow (1.4 s): end_session has to wait for it, drop it, and the next calibrate() call
+    starts from a fresh decision — two calls, scripted actions, expected executed actions computed from the script"""
+    for _ in range(1 if chk.tier == "quick" else 4):
+        scn = ch.gen_scn(rng, sched="rl", max_batches=2)
+        scn.folder, scn.conv, scn.faults, scn.verbose, scn.agent = False, None, [], False, "scripted"
+        k = len(scn.lineup)
+        a, b = rng.randint(2, 3), rng.randint(1, 2)
+        scn.actions = [(j * 7 + 1) % k for j in range(40)] if k > 1 else [0] * 40
+        scn.ops = [("C", a), ("C", b)]
+        scn.slow_policy_calls = (a - 1,)        # the decision taken after the last batch of the first call (never executed)
+        with warnings.catch_warnings():
+            warnings.simplefilter("ignore")
+            lines, info = ch.run_real(scn)
+        want = scn.actions[0:a - 1] + scn.actions[a:a + b]
+        got = info["actions"]
+        chk.case(["slow-agent", scn_json(scn)], True, {"calls": [a, b], "scripted": scn.actions[:a + b + 1], "executed": got, "expected": want})
+        chk.count("rl:slow_last_decision_two_calls")
+        if got != want:
+            chk.fail(f"RL scheduler with a slow agent, calibrate({a}) then calibrate({b}): executed actions {got}, the agent's decisions for those batches were {want} "
+                     f"(a decision taken for a batch that never ran must not be executed later)", {"case": scn_json(scn)})
+        ok, kk, x, y = ch.compare(scn, lines, info)
+        if not ok:
+            chk.disagree("Calibrator+RLScheduler (slow agent, two calls) != BlackIt.Calibrator", {"scenario": scn_json(scn), "impl": (x or "")[:300], "model": (y or "")[:300]})
+
+
 def ctor_cases():
     from black_it.calibrator import Calibrator
     from black_it.schedulers.round_robin import RoundRobinScheduler
@@ -120,6 +146,7 @@ def run(chk: Check):
         if not ok:
             chk.disagree("Calibrator+RoundRobinScheduler != BlackIt.Calibrator (scheduling)",
                          {"scenario": scn_json(scn), "op_index": k, "fields": ch.diff_fields(a, b) if k is not None and k >= 0 else None, "impl": a[:500], "model": b[:500]})
+    slow_agent_two_sessions(chk, rng)
     # RL
     m = 40 if chk.tier == "quick" else 600
     for i in range(m):
